@@ -1,4 +1,4 @@
-import PtnModel.Proofs.BipCover
+import PtnModel.Proofs.BipKoenig
 import PtnModel.Proofs.BipExamples
 /-!
 # Property C18 (bipartite matching / vertex cover)
@@ -104,5 +104,28 @@ theorem explore_total {g : BGraph} (hg : g.WF) (m : List (Nat × Nat)) {u : Nat}
 example : exK.WF ∧ 1 < exK.numU ∧
     explore exK [(0, 0), (2, 1)] (exploreFuel exK) 1 ([], []) = .ok ([1, 0], [0]) :=
   ⟨exK_wf, by decide, exK_explore⟩
+
+/-- (f) Koenig: if `hopcroftKarp` returns on a well-formed graph then `minimumVertexCover` returns
+as well, i.e. no exploration runs out of fuel and the internal assertion
+`len(u_cover) + len(v_cover) == len(matching)` of `minimum_vertex_cover` holds. -/
+theorem mvc_returns_of_hk_returns {g : BGraph} (hg : g.WF) {m : List (Nat × Nat)}
+    (hk : hopcroftKarp g = .ok m) : ∃ uc vc, minimumVertexCover g = .ok (uc, vc) :=
+  mvc_ok_of_hk_ok hg hk
+
+/-- (f) On a well-formed graph the only way `minimumVertexCover` can fail is a failure of
+`hopcroftKarp` itself (which can only be fuel exhaustion, see `hk_total`); in particular
+the assertion of `minimum_vertex_cover` never fails after a successful matching run. -/
+theorem mvc_assert_never_fails {g : BGraph} (hg : g.WF) {e : Err}
+    (h : minimumVertexCover g = .error e) : hopcroftKarp g = .error e :=
+  mvc_error hg h
+
+/-- (f) The matching returned by `hopcroftKarp` on a well-formed graph is a maximum matching:
+no matching of the graph has more pairs. -/
+theorem hk_maximum {g : BGraph} (hg : g.WF) {m : List (Nat × Nat)} (hk : hopcroftKarp g = .ok m) :
+    IsMatching g m ∧ ∀ m', IsMatching g m' → m'.length ≤ m.length :=
+  ⟨hopcroftKarp_isMatching hg hk, hk_maximum' hg hk⟩
+
+/-- non-vacuity of `mvc_returns_of_hk_returns` and `hk_maximum` -/
+example : exK.WF ∧ hopcroftKarp exK = .ok [(0, 0), (2, 1)] := ⟨exK_wf, exK_hk⟩
 
 end Ptn.C18
